@@ -79,12 +79,8 @@ def cone_for(algo, conf, draw, allow_Kgtm=True, dims=(2, 3)):
     raise NotImplementedError
 
 
-@st.composite
-def st_rescaled_cone(draw, m, extra):
-    base = draw(gen.st_diag_cone(m, extra))
-    W = gen.cone_W(base) if base["kind"] == "diag" else np.eye(m)
-    f = [draw(st.sampled_from([0.25, 0.5, 1.0, 2.0, 4.0])) for _ in range(len(W))]
-    return {"kind": "W", "W": (W * np.array(f)[:, None]).tolist()}
+def st_rescaled_cone(m, extra):
+    return gen.st_rescaled_cone(m, extra)
 
 
 @st.composite
